@@ -15,9 +15,14 @@ _COMMON = ["sandbox_noninterference", "sandbox_only_safe_calls", "unsafe_native_
            "sandbox_hidden_fields_deref", "sandbox_hidden_fields_import", "reference_checks_present",
            "import_reads_respect_sandbox", "model_obs_meets_spec",
            "model_native_obs_meets_spec", "translator_covers_model_kinds", "call_and_field_checks_present",
-           "safe_callback_invokers_checked", "reference_paths_cannot_write", "documented_guards_present"]
+           "safe_callback_invokers_checked", "reference_paths_cannot_write", "documented_guards_present",
+           "push_event_noninterference", "push_event_only_safe_calls", "push_event_delivers_only_on_value",
+           "model_events_obs_meets_spec", "model_trace_meets_spec"]
 _KNOWN = ["all_mutating_nodes_guarded_partial", "setconst_counterexample", "sandbox_noninterference_repaired"]
-_FIXED = ["all_mutating_nodes_guarded", "sandbox_noninterference_pinned", "setconst_guard_is_necessary"]
+# F-C19c (IcingaApplication() cleared the application singleton) was repaired by ac7cac3: the generated destructor flag is false
+_FIXED = ["all_mutating_nodes_guarded", "application_dtor_keeps_singleton", "sandbox_noninterference_pinned",
+          "application_dtor_guard_is_necessary",
+          "driver_natives_meet_hypotheses", "driver_model_trace_meets_spec", "setconst_guard_is_necessary"]
 
 
 # Behaviour-preserving rewrites of the anchored code on which the whole check flow was run and must stay silent
@@ -84,28 +89,39 @@ def _opline(line):
 def _src(line):
     for w in line.split(" | ")[0].split():
         if w.startswith("src="):
-            return _unhex(w[4:])
+            return " ;; ".join(_unhex(h) for h in w[4:].split(","))     # E lines: several filters
     return ""
 
 
 class C19(Check):
     prop = "C19"
     technique = ("Lean 4 proof (noninterference of an abstract interpreter with one constructor per node class of expression.cpp, by induction on "
-                 "fuel with a preservation calculus; decision procedures over guard/native tables REGENERATED from the source by a translator on "
-                 "every run); correspondence by evaluating canned programs for every statement form, every native found by reflection and every "
-                 "no_user_view field in sandboxed frames at the production call sites with deep before/after snapshots")
+                 "fuel with a preservation calculus, lifted to the event-stream call site (any list of subscribers' filters) and to whole traces "
+                 "of operations; decision procedures over guard/native tables REGENERATED from the source by a translator on "
+                 "every run); correspondence by evaluating canned programs for every statement form, every native found by reflection, the "
+                 "constructor of every registered type and every "
+                 "no_user_view field in sandboxed frames at the production call sites (incl. several /v1/events subscribers per event) with "
+                 "deep before/after snapshots")
     level_text = ("Machine-checked theorems (Lean 4 kernel): for EVERY program, environment and fuel, if every mutating node kind is guarded in the guard "
                   "table, the call check is present and natives flagged side-effect free are pure, sandboxed evaluation leaves globals, constants, "
                   "objects, files and registries unchanged (value or error), invokes only natives flagged side-effect free, and cannot read "
-                  "no_user_view fields; the guard table, call/field checks, the native flags and the callback-invoker checks are extracted from "
-                  "/repo on every run and the table theorems are re-decided by the kernel. The real evaluator is run on one program per statement "
-                  "form x 3 production call sites, ~135 reflected natives x argument tuples and every no_user_view field of every type, with "
-                  "deep snapshots of the global namespace tree, all config objects and the data directory; the model configured by the generated "
-                  "tables predicts outcome class and changed-bit, and the spec predicate is evaluated on the implementation's observations")
+                  "no_user_view fields; the same for one event handed to ANY list of event-stream filters (push_event_*: each filter in a fresh "
+                  "sandboxed frame, errors swallowed, delivery only on a value) and for EVERY finite trace of operations (model_trace_meets_spec; "
+                  "driver_model_trace_meets_spec instantiates it at the model the driver runs, with no hypothesis left that the generated tables "
+                  "do not discharge). The guard table, the Application destructor flag, call/field checks, the native flags and the callback-invoker checks are "
+                  "extracted from /repo on every run and the table theorems are re-decided by the kernel. The real evaluator is run on one "
+                  "program per statement form (incl. assignments as members of dictionary literals, method calls on hidden receivers, the "
+                  "constructor of every registered type) x 5 production call sites, ~135 reflected natives x argument tuples, every no_user_view "
+                  "field of every type through 16 read paths, and ~290 events with 1-6 subscribers through EventsSubscriber + "
+                  "ApiEvents::CheckResultHandler -> EventsFilter::Push, with deep snapshots of the global namespace tree, all config objects, the "
+                  "data directory and the application singleton; the model configured by the generated tables predicts outcome class, delivery "
+                  "and changed-bit, and the spec predicate is evaluated on the implementation's observations")
     level_note = ("Trusted: Lean kernel (+ propext, Classical.choice, Quot.sound), the translator's regexes (anchors lost => tie broken), harness/driver. "
                   "Not modelled: the semantics of individual natives (parameters; 'flagged safe => pure' is an assumption exercised by snapshot diffing), "
-                  "value-level semantics of the full DSL (containers hold strings), parsing. F-C19a (const in a sandbox) was repaired by 03364e3; known: "
-                  "F-C19b (sandboxed console serialises hidden fields of a returned object).")
+                  "value-level semantics of the full DSL (containers hold strings; aliasing of shared containers is exercised by the harness, not modelled), "
+                  "parsing, HTTP parameter parsing of the handlers. F-C19a (const in a sandbox) was repaired by 03364e3; known: "
+                  "F-C19b (sandboxed console serialises hidden fields of a returned object). F-C19c (`IcingaApplication()` in a sandboxed frame "
+                  "cleared Application::m_Instance) was repaired by ac7cac3; its witness stays in corpus/C19 as a regression case.")
     trusted_base = [
         "gen/c19_sandbox_guards.py: guards recognised semantically (clang-14 JSON AST of expression.cpp, token-level statement/condition normaliser as "
         "fallback and for object.cpp/reference.cpp; anchored regexes for the native registrations); its self-test corpus gen/c19_selftest/ "
@@ -115,11 +131,17 @@ class C19(Check):
         "modelled, not verified: what each native function does (a parameter of the model: name -> (side-effect-free flag, arbitrary state transformer)); "
         "the hypothesis `SafeNativesPure` is exercised, not proved, by calling every reflected native with live objects and diffing deep snapshots",
         "abstract values: containers hold strings; operators reduced to integers/strings (operators never touch state in either)",
+        "event streams: `delivered` is read from the private inbox queue of each EventsSubscriber; `a filter raises in a sandboxed frame` is "
+        "observed in a frame the harness builds exactly as eventqueue.cpp does (Sandboxed = true set by the harness itself)",
+        "constructor effects: the model knows one mechanism (`appDerivedTypes` in Tables.lean, switched by the flag the translator reads from "
+        "Application::~Application in application.cpp; off since ac7cac3); every other registered type's constructor is exercised by the harness with the deep snapshot",
     ]
     assumptions = [
         "every native function flagged side-effect free leaves globals, constants, config objects and files unchanged (SafeNativesPure)",
-        "the three production call sites are the only places that evaluate user-supplied code with Sandboxed = true",
-        "deep snapshot = global namespace tree (depth 7, incl. type prototypes and frozen flags), all fields of all registered config objects, config item counts, data directory listing+content hashes",
+        "the production call sites driven by the harness (GetFilterTargets, EventQueue::ProcessEvent, EventsFilter::Push, both console "
+        "endpoints) are the only places that evaluate user-supplied code with Sandboxed = true",
+        "natives flagged side-effect free do not hand back hidden attribute values (exercised by the serialiser sweep, not proved)",
+        "deep snapshot = global namespace tree (depth 7, incl. type prototypes and frozen flags), all fields of all registered config objects, config item counts, data directory listing+content hashes, Application::GetInstance() != null",
     ]
 
     @property
@@ -195,12 +217,17 @@ class C19(Check):
         res.distinct_nontrivial = stats["nontrivial"]
         res.traces_validated = stats["cases"]
         res.exhaustive = False
-        res.rule = ("every canned program (one per statement form / operator / left-hand-side shape incl. assignments through missing keys and through "
-                    "references / unsafe native as callback of every higher-order native / exfiltration attempt) at four call sites (GetFilterTargets with a "
-                    "filter (+ filter_vars bound to live shared values) for a user without and WITH a permission filter, EventQueue::SetFilter/ProcessEvent, and BOTH "
+        res.rule = ("every canned program (one per statement form / operator / left-hand-side shape incl. assignments through missing keys, through "
+                    "references and as MEMBERS OF DICTIONARY LITERALS (rooted l-values, aliases of live containers, nested literals) / method call on a "
+                    "hidden receiver / unsafe native as callback of every higher-order native / exfiltration attempt) at five call sites (GetFilterTargets with a "
+                    "filter (+ filter_vars bound to live shared values) for a user without and WITH a permission filter, the event site = EventQueue::SetFilter/ProcessEvent "
+                    "AND EventsSubscriber + ApiEvents::CheckResultHandler -> EventsFilter::Push, and BOTH "
                     "console endpoints sandboxed: ConsoleHandler::ExecuteScriptHelper and AutocompleteScriptHelper (word = program + '.x')); "
+                    "the constructor call T() / T(1) of every registered type; one event handed to 1-6 /v1/events subscribers with different filters "
+                    "(every unordered pair of an 18-filter pool of values, errors, refused statements, unsafe calls, hidden reads + seeded larger subsets); "
                     "seeded nested programs combining the statement forms; every no_user_view field of every instantiable type (markers planted) read as "
-                    "obj.f, obj[\"f\"], *(&obj.f), (&obj.f).get(), bare identifier after `using obj`, for-in, via get_object/get_objects/filter_vars at every site, "
+                    "obj.f, obj[\"f\"], *(&obj.f), (&obj.f).get(), bare identifier after `using obj`, for-in, as receiver of a method call (obj.f.len(), .contains, .to_string, "
+                    ".len.call), as constructor argument, via get_object/get_objects/filter_vars at every site, "
                     "plus whole-object serialisers; every whitelisted function/prototype method with a live UNSORTED shared container (object attribute, "
                     "list/dict nested in vars, global, frozen array) in every argument position and as receiver, 1-3 arguments (order-sensitive snapshot, "
                     "live state restored after a detected change); every function and "
@@ -210,7 +237,7 @@ class C19(Check):
                     "snapshot diff; non-trivial = evaluations that ended in a value or in a sandbox/hidden-field refusal (not in an unrelated error)")
         gen_save = outs[-1][0]
         raw = open(gen_save, errors="replace").read().splitlines()
-        res.samples = [l.split(" src=")[0] + " src=" + repr(_src(l)) + " | " + l.split(" | ")[-1] for l in raw if l[:2] in ("P ", "N ", "H ")][::max(1, len(raw) // 8)][:8]
+        res.samples = [l.split(" src=")[0] + " src=" + repr(_src(l)) + " | " + l.split(" | ")[-1] for l in raw if l[:2] in ("P ", "N ", "H ", "E ")][::max(1, len(raw) // 8)][:8]
         res.extra = {"generated_tables": {"node_kinds": len(self.tables["nodeGuards"]),
                                           "guarded": [k for k, v in self.tables["nodeGuards"] if v],
                                           "natives": len(self.tables["natives"]),
@@ -218,12 +245,15 @@ class C19(Check):
                                           "callCheck": self.tables["callCheck"], "fieldCheck": self.tables["fieldCheck"],
                                           "initDictOff": self.tables["initDictOff"], "refGetSandboxed": self.tables["refGetSandboxed"],
                                           "importReadSandboxed": self.tables["importReadSandboxed"],
+                                          "appDtorClearsSingleton": self.tables.get("appDtorClearsSingleton"),
                                           "assignments_to_Sandboxed_in_lib": self.tables["sandboxedAssignments"],
                                           "extractor": self.tables["method"], "ast_vs_token_level_disagreements": self.tables["ast_text_disagree"]},
                      "translator_selftest": getattr(self, "translator_selftest", {})} if hasattr(self, "tables") else {}
 
         seen = set()
         per_clause = {}
+        known_seen = set()
+        replays = 0
         for save, lines in outs:
             raw = open(save, errors="replace").read().splitlines()
             for l in lines:
@@ -245,10 +275,31 @@ class C19(Check):
                     prekey = ("spec", kv.get("clause"), op.split()[1] if len(op.split()) > 1 else "", _src(op))
                     if prekey in seen:
                         continue
-                    if per_clause.get(pk, 0) >= 3:
+                    # witnesses of a KNOWN finding do not use up the clause's three slots (one report per known finding)
+                    pre = {"driver": l, "src": _src(op), "site": op.split()[1] if len(op.split()) > 1 else "", "kind": op[:1],
+                           "died": bool(case) and case[0].startswith("X "),
+                           "obs": case[0].split(" | ")[-1] if case and " | " in case[0] else ""}
+                    kid = next((k.get("id") for k in core.known_findings("C19") if k.get("status") == "known"
+                                and self.matches_known(k, runner.Finding("spec", "pre", case, pre, pre))), None)
+                    if kid is not None:
+                        if kid in known_seen:
+                            continue
+                        known_seen.add(kid)
+                        pk = ("known", kid)
+                    elif per_clause.get(pk, 0) >= 3:
                         continue
                     per_clause[pk] = per_clause.get(pk, 0) + 1
-                if case and case[0][:2] in ("P ", "N ", "H ", "X "):
+                else:
+                    # a badly broken tree disagrees with the model on hundreds of lines: five are reported, and only those
+                    # are replayed (each replay starts a fresh Icinga process) — bounded BEFORE the replay, not after it
+                    prekey = ("corr", kv.get("what"), _src(op))
+                    if prekey in seen or len([k for k in seen if k[0] == "corr"]) >= 5:
+                        continue
+                # replays are bounded (24 per run; a program that killed or hung the evaluator — a hang costs the per-program
+                # alarm again — only once per clause): further witnesses are reported as observed in the run
+                died = bool(case) and case[0].startswith("X ")
+                if case and case[0][:2] in ("P ", "N ", "H ", "X ", "E ") and replays < 24 and not (died and per_clause.get(pk, 0) > 1):
+                    replays += 1
                     dout, shown = self._replay_lines(harness, driver, case)
                     shown = [x for x in shown if x.strip()]
                     still = any(x.startswith(l.split()[0]) for x in dout)
@@ -282,21 +333,21 @@ class C19(Check):
         if cls == "c19_setconst_in_sandbox":
             # exactly: a `const NAME = ...` statement evaluated to a value and only the global namespace changed
             import re
-            return ("clause=protected_state_unchanged" in drv and d.get("kind") == "P" and obs.startswith("ok chg=g-- ")
+            return ("clause=protected_state_unchanged" in drv and d.get("kind") == "P" and obs.startswith("ok chg=g--- ")
                     and re.search(r"(^|[{;]\s*)const\s+[A-Za-z_][A-Za-z0-9_]*\s*=", src) is not None
                     and "root=SetConstExpression" in (finding.case_lines[0] if finding.case_lines else "")
-                    or ("clause=protected_state_unchanged" in drv and d.get("kind") == "P" and obs.startswith("ok chg=g-- ")
+                    or ("clause=protected_state_unchanged" in drv and d.get("kind") == "P" and obs.startswith("ok chg=g--- ")
                         and re.fullmatch(r"try \{ const [A-Za-z0-9_]+ = 1; throw \"x\" \} except \{ 1 \}", src) is not None))
         if cls == "c19_console_serializes_hidden_fields_of_returned_object":
             # exactly: sandboxed console, evaluation succeeded, nothing changed, and the secret occurs ONLY as the
             # `password` field of a config object that the console serialised (leak=2), never in a computed value
             return ("clause=no_hidden_value_in_result" in drv and "leak=2" in drv and d.get("site") == "console"
-                    and obs.startswith("ok chg=--- ") and " leak=2" in (" " + obs) and (" inv=" not in obs or obs.rstrip().endswith(" inv=0")))
+                    and obs.startswith("ok chg=---- ") and " leak=2" in (" " + obs) and (" inv=" not in obs or obs.rstrip().endswith(" inv=0")))
         return False
 
     def replay(self, path, harness, driver):
         data = json.load(open(path))
-        lines = [l for l in data.get("case", []) if l[:2] in ("P ", "N ", "H ", "X ")]
+        lines = [l for l in data.get("case", []) if l[:2] in ("P ", "N ", "H ", "X ", "E ")]
         out, shown = self._replay_lines(harness, driver, lines, "replay")
         for l in [x for x in shown if x.strip()]:
             print(l.split(" src=")[0] + " src=" + repr(_src(l)) + " | " + l.split(" | ")[-1])
